@@ -24,6 +24,7 @@ import copy
 import inspect
 import json
 import random
+import sys
 import types
 import warnings
 
@@ -323,11 +324,15 @@ def evaluate(case: dict) -> dict:
     # ---- route A: the class decorator ----
     with warnings.catch_warnings():
         warnings.simplefilter('error')       # conf 'warn' turns decoration errors into warnings: none is expected
+        limit = sys.getrecursionlimit()
+        sys.setrecursionlimit(260)           # generated classes nest <= 4 deep; runaway recursion must fail fast
         try:
             ra = deco(KA)
         except BaseException as e:  # noqa
             broken.append(('exception', f'decorating the class raised {type(e).__name__}'))
             return res
+        finally:
+            sys.setrecursionlimit(limit)
     if ra is not KA:
         broken.append(('same-object', 'beartype(cls) returned another object'))
         return res
